@@ -27,6 +27,7 @@ ESC_UNITS_NEEDED = [("\\31 px", "1px"), ("\\.5px", ".5px"), ("p\\a x", "p\nx"), 
 EPS53 = Fraction(1, 2 ** 53)
 TINY = Fraction(1, 2 ** 1075)
 HALF6 = Fraction(1, 2 * 10 ** 6)
+OVERFLOW = Fraction(2 ** 1024 - 2 ** 970)     # smallest magnitude float() rounds to inf
 
 
 # ------------------------------------------------------------------------------- implementation side
@@ -153,6 +154,8 @@ def model_num(line):
     f = line.split("|", 7)
     if f[1] == "NONE":
         return {"agree": f[0] == "1", "none": True}
+    if f[1] == "REJECT":
+        return {"agree": f[0] == "1", "reject": True}
     out = {"agree": f[0] == "1", "sign": f[1], "int": uncp(f[2]), "frac": None if f[3] == "-" else uncp(f[3]),
            "unit": uncp(f[4]), "val": mval(f[5])}
     if f[6].startswith("T:"):
@@ -178,6 +181,10 @@ def same_val(a, b):
 
 
 def compare_num(impl, mod):
+    if mod.get("reject"):          # value.py (fix 5180c6a): 'Number out of range' -> not well-formed -> SyntaxErr
+        if not mod["agree"]:
+            return "split_num differs from the regenerated regex under Python semantics"
+        return None if impl.get("err") == "SyntaxErr" else "model: out of range (rejected), implementation %r" % (impl,)
     if "err" in impl:
         return "implementation: %s, model parsed %r" % (impl["err"], mod)
     if not mod["agree"]:
@@ -225,6 +232,12 @@ def oracle_num(lex, impl):
     Returns None or (description, family)"""
     sign, ip, fp, utext, umean = lex
     q = exact(sign, ip, fp)
+    if fp is not None and abs(q) >= OVERFLOW:
+        # float() overflows: the code rejects the value as not well-formed; outside the property's grid.
+        # Anything but a clean rejection (an exception other than SyntaxErr, a stored inf) is still reported.
+        if impl.get("err") == "SyntaxErr":
+            return None
+        return "number too large for binary64 is not rejected cleanly: %r" % (impl.get("err") or impl.get("ser_exc") or impl.get("val"),)
     if "err" in impl:
         return "a number is not parsed as one numeric value: %s" % impl["err"]
     v = impl["val"]
@@ -821,5 +834,7 @@ ASSUME = [
     "number theorems are about normalised token values (after Tokenizer/normalize); units are any string not starting "
     "with a digit or '.'",
     "a percentage in rgb() may be quantised by floor or by rounding (CSS3 does not say; the pinned tests fix 50% -> 127)",
-    "binary64 overflow (more than 308 integer digits with a fraction) is outside the theorems' range hypothesis",
+    "a fraction whose magnitude reaches 2^1024 - 2^970 is rejected by the code as not well-formed (number_overflow_rejected); "
+    "the round-trip theorems carry the magnitude guard |q| <= 10^300 (parse: 10^308) explicitly",
+    "int()'s digit limit (4300 digits, rejected the same way) is not modelled: lexemes are shorter",
 ]
